@@ -140,6 +140,8 @@ def gen(rng, tier):
         subs.insert(min(extra_def[0], len(subs)), 'x9 = %s;' % sg.to_text(extra_def[1], sp, (common.dense_bounds if dense else None)))
     toptext = 'out = ' + sg.to_text(top_c, sp, bp) + ';'
     pastify = mode == 'on' and (any(x[0] in sg.FUTURE_OPS for x in sg.walk(ast)) or rng.random() < 0.1)
+    if sem and not common.iastl_safe(ast):
+        sem, io = None, {}      # iff / xor or arithmetic over +-inf predicates: inf - inf, outside the numeric envelope (sweep seed 4, DESIGN 8.2)
     sc = {'kind': kind, 'mode': mode, 'vars': vars_, 'ast': ast, 'defs': defs, 'top': top, 'subs_text': subs, 'top_text': toptext,
           'consts': dict((k, repr(float(v))) for k, v in consts.items()), 'bconsts': bconsts, 'pastify': bool(pastify),
           'declare': rng.random() < 0.5, 'via': rng.choice(['add_sub_spec', 'text']), 'const_numeric': rng.random() < 0.4, 'fine': fine,
@@ -223,6 +225,9 @@ def eqn(a, b):
 
 def run(sc):
     r = Result()
+    if sc.get('sem') and not common.iastl_safe(sc['ast']):
+        r.discarded = True      # inf - inf under an interface-aware semantics: outside the numeric envelope (DESIGN 3.6)
+        return r
     r.faults.update(sc.get('fired') or {})
     r.interleavings.add('%s|%s|%s' % (sc.get('kind'), sc.get('mode', ''), sc.get('nbatches') or sc.get('n')))
     if sc.get('nbatches', 1) > 1:
